@@ -95,6 +95,8 @@ pub enum Ev {
     },
     /// the custom chain module executed a custom message / answered a custom query
     Module { world: u8, what: &'static str, data: Value },
+    /// a contract value was built with its parameterless constructor
+    New { world: u8, cid: String },
 }
 
 pub struct Sim {
@@ -281,5 +283,13 @@ pub fn exit(cid: &str, handler: &str, res: Value) {
         cid: cid.to_string(),
         handler: handler.to_string(),
         res,
+    })
+}
+
+/// called by every corpus contract's `new()`
+pub fn constructed(cid: &str) {
+    push(Ev::New {
+        world: world(),
+        cid: cid.to_string(),
     })
 }
